@@ -1,10 +1,10 @@
-\* thorough: <= 3 tracks x <= 4 events, ticks <<0,0,1,1>>, channel message / meta
+\* thorough: 2 tracks x <= 4 events, ticks <<0,0,1,1>>, channel / meta / sysex
 \* the trace acceptor (Player!Via) as next-state relation: accepts only stable merges
 CONSTANTS
-  NT = 3
+  NT = 2
   NE = 4
   MaxNow = 1
-  Kinds <- KindsAM
+  Kinds <- KindsNoB
   TimePats <- Pats4q
   Sels <- SelAll
   PortMaps <- PMmixed
